@@ -355,6 +355,15 @@ func vC07(deferred bool) {
 		zzverif.Reach("C07/restore")
 		zzverif.Assert(vSameContent(first, before), "C07/restore")
 	}
+	// back to back: away and straight back to the current filter, without waiting in between
+	if zzverif.NondetInt("back-to-back", 0, 1) == 1 {
+		e.refilter(symFilter{2})
+		e.refilter(prev)
+		zzverif.Quiesce()
+		now := vListEnts(e.fs.Cache(), "harness/own-list")
+		zzverif.Assert(vSameContent(now, before), "C07/restore/back-to-back")
+		zzverif.Reach("C07/back-to-back")
+	}
 }
 
 // VerifC06_Nested: a filtered subscription below a filtered clone: the two
